@@ -208,6 +208,9 @@ def origins(db, f, expr, depth=3, _seen=None):
         return out
     if k == "Struct":
         out.add(("struct", e.get("path")))
+        for fl in e.get("fields", []):
+            if "e" in fl:
+                out |= origins(db, f, fl["e"], depth, _seen)
         return out
     if k in ("If", "Match", "Block"):
         out.add(("unknown", k))
